@@ -705,7 +705,13 @@ class Models:
 
     # ---------------------------------------------------------------- trait objects
     def dyn_call(self, e, st, args):
-        """calls through `dyn RtcpPacketWriter` / `dyn FciBuilder`: the trait contract"""
+        """calls through `dyn RtcpPacketWriter` / `dyn FciBuilder`: the trait contract.
+
+        calculate_size(): Ok(S) or Err(E), the same on every call (the object is borrowed immutably);
+        write_into_unchecked(view): requires size Ok and len(view) >= S (== S for whole-packet writers, which
+        derive the length field from the view), defines exactly view[0..S) and returns S;
+        get_padding()/format()/supports_feedback_type(): fixed attributes of the object.
+        Each impl in the crate is verified against this contract by the C06/C17 rules."""
         d = args[0]
         name = e["name"]
         h = getattr(self.I, "dyn_hook", None)
@@ -713,4 +719,66 @@ class Models:
             r = h(e, st, args)
             if r is not None:
                 return r
+        I = self.I
+        key = ("dyn", d.name)
+        S = self._dattr(d, "size", "usize")
+        if name == "calculate_size":
+            out = []
+            for s in I.assume(st, flit(("b", (key, "size_ok"), True))):
+                s.pc.append(le(S, LEN_MAX_))
+                out.append((s, "val", ok(IntV(S, "usize"))))
+            for s in I.assume(st, flit(("b", (key, "size_ok"), False))):
+                out.append((s, "val", err(StructV("RtcpWriteError", "<error-of>", {"__by": d}))))
+            return out
+        if name == "write_into_unchecked":
+            view = args[1]
+            if not isinstance(view, SliceV):
+                return None
+            exact = d.trait == "RtcpPacketWriter"
+            goal = f_and(flit(("b", (key, "size_ok"), True)), flit(eq(view.length(), S)) if exact else flit(ge(view.length(), S)))
+            out = []
+            from .interp import Write
+            for s in I.oblige(st, goal, "dyn-contract", e,
+                              "member writer is given a buffer of " + ("exactly" if exact else "at least") + " its announced size, and its size calculation succeeded"):
+                I.write(s, view.base, Write(view.start, view.start + S, "member", d, span=I.span(e), fn=I.stack[-1] if I.stack else None))
+                out.append((s, "val", IntV(S, "usize")))
+            return out
+        if name == "get_padding":
+            p = self._dattr(d, "padding", "u8")
+            out = []
+            for s in I.assume(st, flit(("b", (key, "has_padding"), True))):
+                out.append((s, "val", some(IntV(p, "u8"))))
+            for s in I.assume(st, flit(("b", (key, "has_padding"), False))):
+                out.append((s, "val", NONE))
+            return out
+        if name == "format":
+            # the format occupies the 5-bit count field of the feedback header (RFC 4585 §6.1); every impl
+            # in the crate is checked to return a constant <= 31
+            f = self._dattr(d, "format", "u8")
+            st.pc.append(le(f, 31))
+            return [(st, "val", IntV(f, "u8"))]
+        if name == "supports_feedback_type":
+            return [(st, "val", StructV("feedback::FciFeedbackPacketType", "FciFeedbackPacketType",
+                                        {"transport": BoolV(flit(("b", (key, "transport"), True))),
+                                         "payload": BoolV(flit(("b", (key, "payload"), True)))}))]
         return None
+
+    def _dattr(self, d, what, ty):
+        """an attribute of a trait object: indexed by the element position when the object is a collection element"""
+        n = d.name
+        if isinstance(n, tuple) and n[1]:
+            nm, (seq, kkey) = n
+            path = tuple(str(nm).split(".")) if nm else ()
+            return Lin.atom(("elem", seq, kkey, path + ("#" + what,), ty))
+        return Lin.atom(("sym", f"{what}({self._dname(d)})", ty))
+
+    def _dname(self, d):
+        n = d.name
+        if isinstance(n, tuple):
+            from .lin import show_seq, Lin as _L
+            nm, elem = n
+            return f"{nm}@{show_seq(elem[0])}[{_L.from_key(elem[1])}]" if elem else str(nm)
+        return str(n)
+
+
+LEN_MAX_ = 2**63 - 1
